@@ -76,9 +76,36 @@ def gen_foreign(rng):
         out.append([(b"bb" + rng.choice(NONUTF8)).hex(), (rng.choice(NONUTF8) * 3).hex(), "mid"])
     if rng.random() < 0.3:
         out.append([b"empty".hex(), "", "end"])
+    if rng.random() < 0.5:
+        # the library's OWN entry as another writer (or the user) may have left it: same JSON document, another key order /
+        # compact separators / indentation / non-ASCII text escaped or not - not the sorted-keys form fastparquet itself dumps
+        out.append([b"pandas".hex(), rng.choice(["reverse-keys", "compact", "indent", "non-ascii", "escaped", "spaces"]), "restyle"])
     if not out:
         out.append([b"flag".hex(), None, "end"])
     return out
+
+
+def restyle_json(value, style):
+    """the same JSON document in another textual form (deterministic)"""
+    doc = json.loads(value.decode("utf-8"))
+
+    def rev(x):
+        if isinstance(x, dict):
+            return {k: rev(x[k]) for k in reversed(list(x))}
+        if isinstance(x, list):
+            return [rev(y) for y in x]
+        return x
+    if style == "reverse-keys":
+        return json.dumps(rev(doc)).encode("utf-8")
+    if style == "compact":
+        return json.dumps(doc, separators=(",", ":")).encode("utf-8")
+    if style == "indent":
+        return json.dumps(rev(doc), indent=2).encode("utf-8")
+    if style in ("non-ascii", "escaped"):
+        doc = dict(doc)
+        doc["creator"] = {"library": "pyarr\u00f6w \u2603", "version": "14.0.2"}
+        return json.dumps(doc, ensure_ascii=(style == "escaped")).encode("utf-8")
+    return (" " + json.dumps(doc, separators=(" , ", " : ")) + "\n").encode("utf-8")
 
 
 def inject_foreign(pq, path, recipe):
@@ -94,6 +121,11 @@ def inject_foreign(pq, path, recipe):
     kvl = E.get(t, 5)
     items = list(kvl[2]) if kvl else []
     for kh, vh, where in recipe:
+        if where == "restyle":
+            for e in items:
+                if E.get(e, 1)[1] == bytes.fromhex(kh) and E.get(e, 2) is not None:
+                    E.put(e, 2, E.S(restyle_json(E.get(e, 2)[1], vh)))
+            continue
         e = E.R(f1=E.S(bytes.fromhex(kh))) if vh is None else E.R(f1=E.S(bytes.fromhex(kh)), f2=E.S(bytes.fromhex(vh)))
         items.insert({"front": 0, "mid": len(items) // 2, "end": len(items)}[where], e)
     E.put(t, 5, ["l", 12, items])
@@ -360,7 +392,7 @@ def run(ctx):
         case = {"history": h}
         lat = plans[h - n_hist] if h >= n_hist else None
         try:
-            kind = rng.choice(["data", "data", "data2", "_metadata"])
+            kind = rng.choice(["data", "data", "data2", "_metadata", "_metadata", "_common_metadata"])
             if lat:
                 kind = lat[0]
             d0 = {}
@@ -374,15 +406,15 @@ def run(ctx):
                 nrows = 5
             df = pd.DataFrame({"x": np.arange(nrows, dtype="int64"), "s": ["r%d" % i for i in range(nrows)]})
             root = os.path.join(ctx.scratch, "h%d" % h)
-            if kind == "_metadata":
+            if kind in ("_metadata", "_common_metadata"):
                 write(root, df, file_scheme="hive", custom_metadata=dict(d0) or None, row_group_offsets=[0, nrows // 2] if nrows > 1 else None)
-                path = os.path.join(root, "_metadata")
+                path = os.path.join(root, kind)
             else:
                 path = root + ".parquet"
                 write(path, df, custom_metadata=dict(d0) or None,
                       row_group_offsets=[0, nrows // 2] if (kind == "data2" and nrows > 1) else None)
             case = {"kind": kind, "nrows": nrows, "initial": [[repr(k), repr(v)[:60], len(v)] for k, v in d0.items()], "updates": [],
-                    "replay_data": {"kind": kind, "nrows": nrows, "rg2": kind in ("data2", "_metadata"), "initial": enc_dict(d0), "updates": []}}
+                    "replay_data": {"kind": kind, "nrows": nrows, "rg2": kind in ("data2", "_metadata", "_common_metadata"), "initial": enc_dict(d0), "updates": []}}
             pf = ParquetFile(path)
             raw0 = kv_of(pf.fmd)
             cur = dict(raw0)
@@ -408,7 +440,7 @@ def run(ctx):
             ctx.count("footer_has_valueless_entry", bool(foreign) and any(e[1] is None for e in foreign))
             ctx.count("footer_foreign_entries", len(foreign or []))
             schema0, rgs0 = pf.fmd.schema, pf.fmd.row_groups
-            df0 = ParquetFile(root if kind == "_metadata" else path).to_pandas()
+            df0 = ParquetFile(root if kind in ("_metadata", "_common_metadata") else path).to_pandas()
             nupd = rng.choice([1, 2, 3, 5])
             if lat:
                 nupd = 3
@@ -430,9 +462,18 @@ def run(ctx):
                 if lat:
                     lat_u = pad_update_for(path, kind == "_metadata", lat[1][step]) if step < 2 else {LATKEY.decode(): None}
                     ctx.count("footer_lattice.step", "no-payload-length" if lat_u is None else ("to F" if step < 2 else "remove"))
+                if lat_u is None and cur.get(b"pandas") and rng.random() < 0.1:
+                    mode = "replace-pandas"
                 if lat_u is not None:
                     u = dict(lat_u)
                     mode = "lattice"
+                ctx.count("update_mode_final", mode)
+                if lat_u is not None:
+                    pass
+                elif mode == "replace-pandas":
+                    # the user replaces the library's own entry by the same document in another textual form: it must read back verbatim
+                    nv = restyle_json(cur[b"pandas"], rng.choice(["compact", "reverse-keys", "spaces", "non-ascii"]))
+                    u[rng.choice(["pandas", b"pandas"])] = nv if rng.random() < 0.5 else nv.decode("utf-8")
                 elif mode == "empty":
                     pass
                 elif mode == "remove-valueless":
@@ -472,7 +513,7 @@ def run(ctx):
                         u[k] = None if rng.random() < 0.25 else v
                 if u:
                     trivial_hist = False
-                is_md = (kind == "_metadata")
+                is_md = kind in ("_metadata", "_common_metadata")
                 if rng.random() < 0.12:
                     # an update the library must refuse (value / key of a type that cannot be stored): it has to raise and
                     # leave a valid file with the previous content (the property holds for ANY sequence of updates)
@@ -791,10 +832,10 @@ def replay(rep):
         df = pd.DataFrame({"x": np.arange(nrows, dtype="int64"), "s": ["r%d" % i for i in range(nrows)]})
         d0 = dec_dict(rd["initial"])
         rgo = [0, nrows // 2] if (rd["rg2"] and nrows > 1) else None
-        if rd["kind"] == "_metadata":
+        if rd["kind"] in ("_metadata", "_common_metadata"):
             root = os.path.join(tmp, "ds")
             write(root, df, file_scheme="hive", custom_metadata=dict(d0) or None, row_group_offsets=rgo)
-            path = os.path.join(root, "_metadata")
+            path = os.path.join(root, rd["kind"])
         else:
             path = root = os.path.join(tmp, "f.parquet")
             write(path, df, custom_metadata=dict(d0) or None, row_group_offsets=rgo)
